@@ -558,8 +558,10 @@ def run(tier):
         "undocumented points are policies, every policy admitted: a single-valued option given twice (first / last / error), "
         "a dash-prefixed non-literal token where a positional could go (value / unknown option), tokens after a unit command "
         "(outer grammar goes on / only help may follow); when several items of a line are faulty any of their errors is admitted",
-        "round trip domain: option values are arbitrary tokens (incl. option-like ones); positional values do not start with '-'; "
-        "ints are rendered canonically",
+        "round trip (mandatory: a rendering admits only Ok(assignment)): option values are arbitrary tokens incl. option-like ones; "
+        "positional values are arbitrary tokens (--x, --, -, -1, --opt-like=1, a literal of an enclosing level) except the literals "
+        "of the positional's own struct level and -h/--help; ints are rendered canonically. The two-way policy for a dashed token in "
+        "positional position only applies to lists that are not renderings",
         "the error kind is read off the cause text by prefix; an unknown or overflowed cause text counts as an error of any kind; "
         "the help text must be the help printer output of the struct level the definition blames",
         "shapes outside the family and compile-time rejections (e.g. Vec<bool>, positional + subcommand) are not reached",
